@@ -5,7 +5,7 @@
 using namespace sv;
 
 namespace {
-const double K = 64;
+const double K = 16;
 
 struct Setup {
   std::unique_ptr<Problem> p;
